@@ -38,7 +38,8 @@ PROBES = ["append_or_insert_into_unterminated_document", "move_all_occurrences_o
           "single_occurrence_moved_past_sibling", "sort_with_duplicates", "insert_into_empty_file",
           "insert_beyond_end", "unindexed_set_replaces_all_occurrences",
           "reorder_in_unterminated_document", "failing_op_leaves_document_unchanged", "gc_step",
-          "handles_dropped_and_refetched", "step_without_observation"]
+          "handles_dropped_and_refetched", "step_without_observation",
+          "file_object_dropped_paragraph_kept", "set_through_set_field_methods"]
 
 
 def generate(seed, run, tier):
